@@ -289,8 +289,10 @@ def extra_phase(tier, seed, deadline):
     from edgegraph.structure import Vertex
     from eglib import driver, fresh
 
-    n = 200 if tier == "quick" else 3000
+    n = 200 if tier == "quick" else 2000
     cases = []
+    t_prep = time.time()
+    prep_budget = 60 if tier == "quick" else 300        # seconds for the (single-process) preparation below
 
     @hypothesis.seed(driver.shard_seed(seed, ID + "-fresh", 0))
     @settings(max_examples=n, database=None, deadline=None, suppress_health_check=list(HealthCheck), phases=[Phase.generate])
@@ -301,7 +303,12 @@ def extra_phase(tier, seed, deadline):
     collect()
     jobs, expect, kept = [], [], []
     for case in cases:
+        if time.time() - t_prep > prep_budget:
+            break       # a time budget, not a verdict: the remaining collected histories are simply not used
         driver.reset_globals()
+        # the fresh-interpreter clause is about state travelling between processes, not about sizes: the very large
+        # bulk operations (covered by the main phase) would only make this single-process preparation slow
+        case = dict(case, ops=[(["bulk"] + list(o[1:])) if o[0] == "bulk_big" else o for o in case["ops"]])
         ops = case["ops"]
         # split the history: the prefix runs here (caching on, queries warm the caches), the world is pickled,
         # and a FRESH interpreter continues with the suffix (mutations and queries), caching on
